@@ -820,10 +820,32 @@ pub fn call(env: &mut Env, c: &Value) -> Value {
     }
 }
 
-pub fn run_job(job: &Value) -> Value {
+/// progress shared with the watchdog: a call that never returns is an outcome, not a reason to lose the run
+pub struct Progress {
+    pub job: Value,
+    pub results: Vec<Value>,
+    pub ncalls: usize,
+    pub tick: u64,
+    pub current: String,
+}
+
+pub fn run_job(job: &Value, prog: &std::sync::Arc<std::sync::Mutex<Progress>>) -> Value {
     let mut env: Env = HashMap::new();
     let mut results = vec![];
-    for c in job["calls"].as_array().unwrap() {
+    let calls = job["calls"].as_array().unwrap();
+    {
+        let mut p = prog.lock().unwrap();
+        p.job = job["id"].clone();
+        p.results.clear();
+        p.ncalls = calls.len();
+        p.tick += 1;
+    }
+    for c in calls {
+        {
+            let mut p = prog.lock().unwrap();
+            p.current = c["op"].as_str().unwrap_or("?").to_owned();
+            p.tick += 1;
+        }
         let r = std::panic::catch_unwind(std::panic::AssertUnwindSafe(|| call(&mut env, c)));
         let r = match r {
             Ok(v) => v,
@@ -832,6 +854,7 @@ pub fn run_job(job: &Value) -> Value {
                 if msg.starts_with("harness: no ") {
                     // refers to a slot whose constructor was refused earlier in the job
                     results.push(json!({ "skip": msg }));
+                    prog.lock().unwrap().results.push(json!({ "skip": "" }));
                     continue;
                 }
                 if msg.starts_with("harness:") {
@@ -841,6 +864,7 @@ pub fn run_job(job: &Value) -> Value {
                 json!({ "panic": msg })
             }
         };
+        prog.lock().unwrap().results.push(r.clone());
         results.push(r);
     }
     // drop order: locals before shared metrics is irrelevant for results already taken
@@ -853,14 +877,49 @@ pub fn run_job(job: &Value) -> Value {
 pub fn run_file(input: &str, output: &str) {
     std::panic::set_hook(Box::new(|_| {}));
     let f = std::io::BufReader::new(std::fs::File::open(input).expect("input"));
-    let mut w = std::io::BufWriter::new(std::fs::File::create(output).expect("output"));
+    let w = std::sync::Arc::new(std::sync::Mutex::new(std::io::BufWriter::new(std::fs::File::create(output).expect("output"))));
+    let prog = std::sync::Arc::new(std::sync::Mutex::new(Progress { job: Value::Null, results: vec![], ncalls: 0, tick: 0, current: String::new() }));
+    let limit: u64 = std::env::var("VH_HANG_SECS").ok().and_then(|x| x.parse().ok()).unwrap_or(10);
+    {
+        // watchdog: when no call returns for `limit` seconds, the pending call is recorded as hanging (as a panic-class
+        // outcome "HANG"), the calls after it as not executed, and the process leaves with code 3; the driver re-runs the
+        // jobs that were not reached
+        let (w, prog) = (w.clone(), prog.clone());
+        std::thread::spawn(move || {
+            let mut last = (0u64, std::time::Instant::now());
+            loop {
+                std::thread::sleep(std::time::Duration::from_millis(500));
+                let p = prog.lock().unwrap();
+                if p.tick != last.0 {
+                    last = (p.tick, std::time::Instant::now());
+                    continue;
+                }
+                if p.ncalls > 0 && last.1.elapsed().as_secs() >= limit {
+                    let mut res = p.results.clone();
+                    res.push(json!({ "panic": format!("HANG: call `{}` did not return within {} s", p.current, limit), "hang": true }));
+                    while res.len() < p.ncalls {
+                        res.push(json!({ "skip": "not executed: an earlier call of this job never returned" }));
+                    }
+                    let mut o = Map::new();
+                    o.insert("id".into(), p.job.clone());
+                    o.insert("res".into(), Value::Array(res));
+                    let mut w = w.lock().unwrap();
+                    writeln!(w, "{}", Value::Object(o)).unwrap();
+                    w.flush().unwrap();
+                    std::process::exit(3);
+                }
+            }
+        });
+    }
     for line in f.lines() {
         let line = line.unwrap();
         if line.trim().is_empty() {
             continue;
         }
         let job: Value = serde_json::from_str(&line).unwrap();
-        writeln!(w, "{}", run_job(&job)).unwrap();
+        let r = run_job(&job, &prog);
+        prog.lock().unwrap().ncalls = 0;
+        writeln!(w.lock().unwrap(), "{}", r).unwrap();
     }
-    w.flush().unwrap();
+    w.lock().unwrap().flush().unwrap();
 }
